@@ -6,7 +6,7 @@ import vlib
 from vlib import glist, gbool
 
 CODES = {
-    "C18": [1, 2, 3, 4, 5, 6, 7, 8, 9],
+    "C18": [1, 2, 3, 4, 5, 6, 7, 8, 9, 10],
     "C19": [11, 12, 13, 14, 15, 16, 17],
 }
 CODE_TEXT = {
@@ -19,6 +19,7 @@ CODE_TEXT = {
     7: "batched transaction is not the one currently held for its slot",
     8: "commit nonce moved without a commit that justifies it",
     9: "batched a nonce below the nonce the ledger reports for the account",
+    10: "a commit named a transaction the pool still tracks (its slot occupied ever since it was taken), yet the commit nonce did not pass its nonce",
     11: "GetTransaction(h) returned a transaction whose hash is not h",
     12: "a held transaction disappeared without commit / supersede / age eviction / restart",
     13: "a fresh transaction at or above the pending nonce was not taken",
@@ -196,6 +197,35 @@ def gen_structured(r, big=False, with_ledger=False):
             front[a] += 2
             clock += r.choice([1, 10, 40])
             ops.append([3, clock, r.choice([0, 3, 8, 20])])
+            ops.append([1])
+        elif y < 0.22:
+            # X parked at a future nonce, a conflicting Y takes the slot over, the gap is filled while this node does
+            # not batch, a block from elsewhere commits the prefix and X (by X's hash), then this node generates
+            a = r.randrange(k)
+            gap = r.choice([1, 2, 3])
+            x = new_tx(a, front[a] + gap)
+            ops.append([0, 0, 1, clock, [x]])
+            clock += 1
+            yy = new_tx(a, front[a] + gap)
+            ops.append([0, 0, r.choice([0, 1]), clock, [yy]])
+            fill = [new_tx(a, front[a] + i) for i in range(gap)]
+            ops.append([0, 0, 1, clock, fill])
+            front[a] += gap + 1
+            ops.append([2, fill + [r.choice([x, x, yy])]])
+            ops.append([1])
+            ops.append([6, 1])
+        elif y < 0.27:
+            # two batches of one account in flight, their commit reports arrive in the wrong order
+            a = r.randrange(k)
+            m = 2 * max(1, min(cfg["batch"], 3))
+            run = [new_tx(a, front[a] + i) for i in range(m)]
+            front[a] += m
+            ops.append([0, 0, 1, clock, run])
+            ops.append([1]); ops.append([1])
+            h = m // 2
+            ops.append([2, run[h:]])
+            ops.append([2, run[:h]])
+            ops.append([0, 1, 1, clock, [new_tx(a, front[a])]]); front[a] += 1
             ops.append([1])
     return make_history(cfg, ledger, ops, "structured+ledger" if with_ledger else "structured")
 
@@ -613,7 +643,7 @@ def run_intake_leg(ctx, exe):
             obj = json.load(open(os.path.join(vlib.CORPUS, f)))
             hists.append(dict(mode="txcache", size=obj["size"], naccts=obj["naccts"], univ=universe_intake(obj["ops"]),
                               ops=obj["ops"], tag="corpus:" + f))
-    n, nm = (36, 10) if ctx.quick else (1500, 300)
+    n, nm = (30, 8) if ctx.quick else (1500, 300)
     hists += [gen_intake(r) for _ in range(n)] + [gen_intake(r, malformed=True) for _ in range(nm)]
     outs, err = run_intake_impl(exe, hists)
     if outs is None:
@@ -694,7 +724,7 @@ def run(ctx, pid):
     r = ctx.rng
     hists = corpus_histories(pid)
     ncorpus = len(hists)
-    n_struct, n_mal = (170, 40) if ctx.quick else (6000, 1200)
+    n_struct, n_mal = (130, 30) if ctx.quick else (6000, 1200)
     hists += [gen_structured(r, with_ledger=(i % 6 == 5)) for i in range(n_struct)]
     hists += [gen_malformed(r) for _ in range(n_mal)]
     if not ctx.quick:
